@@ -191,11 +191,11 @@ def total_energy(h, part="tpi", seed=0):
         h.eq("System.E_pot = sum of the contributions", E, tot)
 
 
-def line_load(h, interp="Quaternion", nel=1, seed=0):
+def line_load(h, interp="Quaternion", nel=1, seed=0, p=1):
     """rod with a line-distributed dead load: power of the load = minus the rate of its potential; System.E_pot evaluates"""
     from cardillo import System
     from cardillo.rods.force_line_distributed import Force_line_distributed
-    rod, Q, nn = lib.make_rod(h, interp=interp, mixed=False, p=1, nel=nel, Q="curved", seed=seed, assemble=False)
+    rod, Q, nn = lib.make_rod(h, interp=interp, mixed=False, p=p, nel=nel, Q="curved", seed=seed, assemble=False)
     F = h.vec("F", 3)
     load = Force_line_distributed(F, rod)
     sysm = System()
@@ -232,6 +232,12 @@ def cases(tier, seed):
     for interp in ("Quaternion", "R12"):
         for nel in (1, 2):
             cs.append(Case(f"line_load/{interp}/nel{nel}", line_load, dict(interp=interp, nel=nel, seed=seed), timeout=T))
+    # quadratic elements: the reference stretch varies inside an element (static and dynamic quadrature differ)
+    cs.append(Case("line_load/Quaternion/p2/nel1", line_load, dict(interp="Quaternion", nel=1, seed=seed, p=2), timeout=T, hard=T * 8))
+    if tier == "quick":
+        for axis in (0, 1, 2):
+            if axis != seed % 3:
+                cs.append(Case(f"revolute/F/Spring/ax{axis}", revolute_energy, dict(first="F", law="Spring", axis=axis, seed=seed, concrete_orientation=True), timeout=T, hard=T * 10))
     cs.append(Case("system/E_pot/tpi", total_energy, dict(part="tpi", seed=seed), timeout=T))
     cs.append(Case("system/E_pot/revolute", total_energy, dict(part="revolute", seed=seed), timeout=T))
     return cs
